@@ -83,6 +83,38 @@ func (ex *Exec) callFunc(st *State, frID int, instr ssa.Instruction, fn *ssa.Fun
 		k(st, ex.freshResults(st, res, "erased"))
 		return
 	}
+	if strings.HasPrefix(key, "atomic.") && len(args) >= 1 {
+		if a, ok := args[0].(AddrV); ok {
+			switch fn.Name() {
+			case "LoadInt64", "LoadInt32", "LoadUint64", "LoadUint32":
+				v := ex.loadLoc(st, a.L)
+				ex.assumeTyped(st, v, a.L.Typ)
+				k(st, []Val{v})
+				return
+			case "StoreInt64", "StoreInt32", "StoreUint64", "StoreUint32":
+				ex.storeLoc(st, a.L, args[1])
+				k(st, nil)
+				return
+			case "AddInt64", "AddInt32", "AddUint64", "AddUint32":
+				nv := Add(ex.loadLoc(st, a.L).(Term), args[1].(Term))
+				ex.storeLoc(st, a.L, nv)
+				k(st, []Val{nv})
+				return
+			}
+		}
+	}
+	if key == "binary.Read" && len(args) == 3 {
+		// binary.Read(r, order, &x): x receives an unconstrained value of its type (what the
+		// stream holds is not modelled); err == nil or x is left unspecified
+		if iv, ok := args[2].(IfaceV); ok {
+			if a, ok := ex.addrBoxes[iv.Ref.S]; ok {
+				ex.externs["binary.Read (writes an unconstrained value through its pointer argument)"] = true
+				ex.storeLoc(st, a.L, ex.symbolic(st, "binread", a.L.Typ))
+				k(st, ex.freshResults(st, fn.Signature.Results(), "res:Read"))
+				return
+			}
+		}
+	}
 	if key == "sort.Search" && len(args) == 2 {
 		if c, ok := args[1].(*ClosureV); ok {
 			k(st, []Val{ex.sortSearch(st, frID, args[0].(Term), c)})
